@@ -1052,7 +1052,7 @@ async fn build_forwarded_response(
     }
 
     #[cfg_attr(not(feature = "__dnssec"), allow(unused_mut))]
-    let (mut answers, authorities, additionals) = match response {
+    let (mut answers, mut authorities, additionals) = match response {
         #[cfg(feature = "resolver")]
         Ok(AuthLookup::Resolved(lookup)) => {
             // Extract each section from the Lookup to preserve section structure
@@ -1189,20 +1189,25 @@ async fn build_forwarded_response(
         // we may want to interpret (B) as allowed ("MAY be skipped") as a form of optimization in
         // the future to reduce the number of network transactions that a CD=1 query needs.
         match &mut answers {
-            Answer::Normal(answers) => match DnssecSummary::from_records(answers.iter()) {
-                DnssecSummary::Secure
-                    if (request_meta.authentic_data || lookup_options.dnssec_ok) =>
-                {
-                    trace!("setting ad header");
-                    response_meta.authentic_data = true;
+            // RFC 4035 section 3.2.3: the AD bit is only set if all RRsets in the answer and
+            // authority sections are authentic
+            Answer::Normal(answers) => {
+                match DnssecSummary::from_records(answers.iter().chain(authorities.iter())) {
+                    DnssecSummary::Secure
+                        if (request_meta.authentic_data || lookup_options.dnssec_ok) =>
+                    {
+                        trace!("setting ad header");
+                        response_meta.authentic_data = true;
+                    }
+                    DnssecSummary::Bogus if !request_meta.checking_disabled => {
+                        response_meta.response_code = ResponseCode::ServFail;
+                        // do not return Bogus records when CD=0
+                        *answers = AuthLookup::default();
+                        authorities = AuthLookup::default();
+                    }
+                    _ => {}
                 }
-                DnssecSummary::Bogus if !request_meta.checking_disabled => {
-                    response_meta.response_code = ResponseCode::ServFail;
-                    // do not return Bogus records when CD=0
-                    *answers = AuthLookup::default();
-                }
-                _ => {}
-            },
+            }
             Answer::NoRecords(soa) => match DnssecSummary::from_records(authorities.iter()) {
                 DnssecSummary::Secure
                     if (request_meta.authentic_data || lookup_options.dnssec_ok) =>
